@@ -934,33 +934,22 @@ Example ex_ctl_frame :
 Proof. vm_compute. split; [eauto|split; [lia|discriminate]]. Qed.
 
 (* ------------------------------------------------------------------------------------------------ *)
-(* Clauses that are only partially covered *)
+(* Clause that is only partially covered *)
 
-(* C02: uniqueness of source tags.  Proved for every op sequence: the member tags (t <> 0) are unique.
-   MISSING: uniqueness of the body tag 0 under the discipline (at most one AGroupExit with a held exception per
-   group).  Without the discipline it is false: GroupThms7.body_tag_not_unique_under_double_exit. *)
-Theorem group_excs_nodup_tags_partial s g : reach s ->
-  NoDup (filter (fun x => negb (Nat.eqb x 0)) (map fst (g_excs (groups s g)))).
-Proof. intros R. apply (group_excs_exactly_member_errors s g R). Qed.
-
-(* C07: "the start future gets the value v only by AStarted v of the child".  Proved: AStarted c v on the pending
-   start future stores v (GroupThms6.started_sets_value); the future is referenced by nothing else that completes
-   futures (GroupThms6.start_future_exclusive: not an event waiter, not an on_completed future, not a sleep future,
-   start future of exactly one child).  MISSING: the step-level statement "f_st changes from FPend to FRes v in a
-   step only if o = AStarted c v" (needs one more frame walk over futs, like GroupThms2 for groups). *)
-Theorem start_value_origin_partial s c f : reach s -> k_startfut (tasks s c) = Some f ->
-  (forall e, ~ In f (e_waiters (events s e))) /\ (forall g, g_fut (groups s g) <> Some f) /\ ~ sleepref s f /\
-  (forall c', k_startfut (tasks s c') = Some f -> c' = c).
-Proof.
-  intros R H. destruct (GroupThms6.start_future_exclusive s c f R H) as [H1 [H2 [H3 [H4 _]]]]. auto.
-Qed.
-
-(* C07: "start() re-raises only after the child has terminated".  Proved: the interrupted caller cancels the
-   child's handle scope and moves to CStartJoin (start_cancel_joins_child); it stays there until one of its own
-   handles is run (ctl_changes_only_when_acting); if the wake-up comes from the finished event, the child's
-   coroutine has ended (start_join_wakeup_means_child_finished).  MISSING: that under AnyIO cancellation only
-   (no ANativeCancel on the caller, no ACancel on the private join scope) the event is the only possible
-   wake-up: needs an invariant tying the join scope's shield to the deliveries that can reach the caller. *)
+(* C07: "start() re-raises only after the child has terminated".
+   Proved (every op sequence):
+   - the interrupted caller cancels the child's handle scope and moves to CStartJoin (GroupThms6.start_cancel_joins_child);
+   - it stays in CStartJoin until one of its own handles is run (ctl_changes_only_when_acting);
+   - its join future gets a value only in the step `AFinish child` in which the child's coroutine ends
+     (GroupThms11.start_join_event_wakeup), and then the finished event is set and k_final child <> None
+     (GroupThms6.start_join_wakeup_means_child_finished, restated below).
+   MISSING: that the only other way to wake the caller is Task.cancel() on it, and that under AnyIO cancellation
+   this needs a cancel of the private, shielded join scope sc (or un-shielding it) - i.e. that
+   _deliver_cancellation never reaches the caller through another scope.  That needs the scope-tree invariant
+   `In t (s_tasks (scopes s x)) <-> k_cur (tasks s t) = Some x` (DESIGN I1) plus the walk of `deliver` over it.
+   The invariant is established in the C03/C04 development (TreeStep.reach_tree / DeliverAlive.TreeL.tl_task, for
+   op sequences satisfying their `op_ok`); these files may not be imported here, and re-proving it is a separate
+   ~1000-line walk. *)
 Theorem start_join_partial s t ch c e f v : reach s ->
   k_ctl (tasks s t) = CStartJoin ch c e (Some f) -> f_st (futs s f) = FRes v ->
   k_final (tasks s ch) <> None.
